@@ -9,7 +9,11 @@
    specification each:
      NI s  (handler not idle)                       -> afterwards J
      J  s  (idle => fresh parameters, step IDLE/TC) -> afterwards J      ("safe" functions)
-   and J0 (idle => fresh parameters) on every exceptional exit. *)
+   and J on every exceptional exit (an abandoning declare_fault raises E_ABANDONED in the reset state;
+   the exception travels to the nearest catch_abandoned, which returns normally in that state, so the
+   exceptional post-condition has to be as strong as the normal one).  [postx] is [post] with an
+   exceptional post-condition that sees the exception code: needed at the one [catch] of the receiver
+   whose body can abandon (handle_fd_pdu), to know that the filestore handler does not run then. *)
 From CFDP Require Import Base LostSeg Fs Crc Checksum Handler Dest Source HandlerSpec.
 From CFDP.gen Require Import Tables.
 From CFDP.proofs Require Import GuardProofs.
@@ -29,30 +33,54 @@ Arguments Z.leb : simpl never.
 Arguments Z.eqb : simpl never.
 
 (* ------------------------------------------------------------------ generic part *)
-Definition post {S A} (Q : A -> S -> Prop) (E : S -> Prop) (x : S * res Z A) : Prop :=
-  match x with (s', Ok a) => Q a s' | (s', Err _) => E s' end.
+(* [postx]: the exceptional post-condition may depend on the exception (needed where a [catch] selects by code) *)
+Definition postx {S A} (Q : A -> S -> Prop) (E : Z -> S -> Prop) (x : S * res Z A) : Prop :=
+  match x with (s', Ok a) => Q a s' | (s', Err e) => E e s' end.
+Definition post {S A} (Q : A -> S -> Prop) (E : S -> Prop) (x : S * res Z A) : Prop := postx Q (fun _ => E) x.
+
+Lemma postx_bind {S A B} (m : M S A) (k : A -> M S B) s (Q1 : A -> S -> Prop) (E1 : Z -> S -> Prop) (Q : B -> S -> Prop) (E : Z -> S -> Prop) :
+  postx Q1 E1 (m s) -> (forall e s', E1 e s' -> E e s') -> (forall a s', Q1 a s' -> postx Q E (k a s')) ->
+  postx Q E (bind m k s).
+Proof.
+  unfold bind, postx. destruct (m s) as [s1 [a|e]]; intros H1 HE Hk.
+  - apply Hk. exact H1.
+  - apply HE. exact H1.
+Qed.
+
+Lemma postx_post {S A} (Q1 Q : A -> S -> Prop) (E1 : Z -> S -> Prop) (E : S -> Prop) x :
+  postx Q1 E1 x -> (forall a s', Q1 a s' -> Q a s') -> (forall e s', E1 e s' -> E s') -> post Q E x.
+Proof. unfold post, postx. destruct x as [s1 [a|e]]; intros H HQ HE; [apply HQ | apply (HE e)]; exact H. Qed.
+
+Lemma postx_catch {S A} (m : M S A) (h : Z -> option (M S A)) s (E1 : Z -> S -> Prop) (Q : A -> S -> Prop) (E : Z -> S -> Prop) :
+  postx Q E1 (m s) -> (forall e k s', h e = Some k -> E1 e s' -> postx Q E (k s')) ->
+  (forall e s', h e = None -> E1 e s' -> E e s') ->
+  postx Q E (catch m h s).
+Proof.
+  unfold catch, postx. destruct (m s) as [s1 [a|e]]; intros H1 Hh HE; [exact H1|].
+  destruct (h e) as [k|] eqn:Hk; [exact (Hh e k s1 Hk H1) | exact (HE e s1 Hk H1)].
+Qed.
 
 Lemma post_bind {S A B} (m : M S A) (k : A -> M S B) s (Q1 : A -> S -> Prop) (E1 : S -> Prop) (Q : B -> S -> Prop) (E : S -> Prop) :
   post Q1 E1 (m s) -> (forall s', E1 s' -> E s') -> (forall a s', Q1 a s' -> post Q E (k a s')) ->
   post Q E (bind m k s).
 Proof.
-  unfold bind, post. destruct (m s) as [s1 [a|e]]; intros H1 HE Hk.
+  unfold bind, post, postx. destruct (m s) as [s1 [a|e]]; intros H1 HE Hk.
   - apply Hk. exact H1.
   - apply HE. exact H1.
 Qed.
 
 Lemma post_weaken {S A} (Q1 Q : A -> S -> Prop) (E1 E : S -> Prop) x :
   post Q1 E1 x -> (forall a s', Q1 a s' -> Q a s') -> (forall s', E1 s' -> E s') -> post Q E x.
-Proof. unfold post. destruct x as [s1 [a|e]]; intros H HQ HE; [apply HQ | apply HE]; exact H. Qed.
+Proof. unfold post, postx. destruct x as [s1 [a|e]]; intros H HQ HE; [apply HQ | apply HE]; exact H. Qed.
 
 Lemma post_fst {S A} (P : S -> Prop) (x : S * res Z A) : post (fun _ => P) P x -> P (fst x).
-Proof. unfold post. destruct x as [s1 [a|e]]; intro H; exact H. Qed.
+Proof. unfold post, postx. destruct x as [s1 [a|e]]; intro H; exact H. Qed.
 
 Lemma post_catch {S A} (m : M S A) (h : Z -> option (M S A)) s (E1 : S -> Prop) (Q : A -> S -> Prop) (E : S -> Prop) :
   post Q E1 (m s) -> (forall e k s', h e = Some k -> E1 s' -> post Q E (k s')) -> (forall s', E1 s' -> E s') ->
   post Q E (catch m h s).
 Proof.
-  unfold catch, post. destruct (m s) as [s1 [a|e]]; intros H1 Hh HE; [exact H1|].
+  unfold catch, post, postx. destruct (m s) as [s1 [a|e]]; intros H1 Hh HE; [exact H1|].
   destruct (h e) as [k|] eqn:Hk; [exact (Hh e k s1 Hk H1) | exact (HE s1 H1)].
 Qed.
 
@@ -140,7 +168,7 @@ Ltac mrun :=
 
 (* finish a straight-line tail made of primitives *)
 Ltac mfin :=
-  unfold setp, set_step, emit, reset_internal, add_packet, gp, now, get_step, modify, gets, get, put, ret, raise, post;
+  unfold setp, set_step, emit, reset_internal, add_packet, gp, now, get_step, modify, gets, get, put, ret, raise, post, postx;
   cbn.
 
 Ltac ni := first [ assumption | unfold NI in *; cbn; first [assumption | reflexivity] ].
@@ -151,7 +179,16 @@ Notation DF m := (MInv d_state Any m).
 Lemma frame_bind {A B} (m : D A) (k : A -> D B) s (Q : B -> dst -> Prop) (E : dst -> Prop) :
   DF m -> NI s -> (forall s', NI s' -> E s') -> (forall a s', NI s' -> post Q E (k a s')) -> post Q E (bind m k s).
 Proof.
-  intros Hm Hs HE Hk. pose proof (minv_state _ _ _ s Hm) as X. unfold bind, post.
+  intros Hm Hs HE Hk. pose proof (minv_state _ _ _ s Hm) as X. unfold bind, post, postx.
+  destruct (m s) as [s1 [a|e]]; cbn [fst] in X.
+  - apply Hk. unfold NI in *. rewrite X. exact Hs.
+  - apply HE. unfold NI in *. rewrite X. exact Hs.
+Qed.
+
+Lemma frame_bindx {A B} (m : D A) (k : A -> D B) s (Q : B -> dst -> Prop) (E : Z -> dst -> Prop) :
+  DF m -> NI s -> (forall e s', NI s' -> E e s') -> (forall a s', NI s' -> postx Q E (k a s')) -> postx Q E (bind m k s).
+Proof.
+  intros Hm Hs HE Hk. pose proof (minv_state _ _ _ s Hm) as X. unfold bind, postx.
   destruct (m s) as [s1 [a|e]]; cbn [fst] in X.
   - apply Hk. unfold NI in *. rewrite X. exact Hs.
   - apply HE. unfold NI in *. rewrite X. exact Hs.
@@ -159,7 +196,7 @@ Qed.
 
 Lemma frame_last {A} (m : D A) s : DF m -> NI s -> post (fun _ => NI) NI (m s).
 Proof.
-  intros Hm Hs. pose proof (minv_state _ _ _ s Hm) as X. unfold post.
+  intros Hm Hs. pose proof (minv_state _ _ _ s Hm) as X. unfold post, postx.
   destruct (m s) as [s1 [a|e]]; cbn [fst] in X; unfold NI in *; rewrite X; exact Hs.
 Qed.
 
@@ -192,91 +229,114 @@ Lemma df_start_positive_ack_procedure : DF start_positive_ack_procedure. Proof. 
 #[local] Hint Resolve df_handle_eof_without_previous_metadata df_handle_fd_without_previous_metadata
   df_notice_of_completion df_prepare_finished_pdu df_start_positive_ack_procedure : minv.
 
-Ltac fstep := eapply frame_bind; [solve [minv] | ni | intros; first [assumption | auto with iso] | intros ? ? ?].
+Ltac fstep :=
+  first [eapply frame_bind | eapply frame_bindx];
+  [solve [minv] | ni | intros; first [assumption | auto with iso] | intros ? ? ?].
 Ltac jdone :=
   first [ assumption | apply NI_J; ni | apply NI_J0; ni | apply Idle_J; assumption
         | apply J_J0; assumption | apply J_J0; apply Idle_J; assumption ].
 Ltac flast := eapply post_weaken; [apply frame_last; [solve [minv] | ni] | intros; jdone | intros; jdone].
+(* exceptional exits described by a disjunction (not idle / abandoned) *)
+Ltac jx := let s0 := fresh "s" in let Hx := fresh "Hx" in intros s0 Hx; cbv beta in Hx; destruct Hx as [Hx|Hx]; jdone.
 (* forget the shape of the current state, keeping only that the handler is not idle *)
 Tactic Notation "nigen" ident(x) :=
   match goal with
   | |- post _ _ (_ ?st) =>
       let Hn := fresh "Hn" in assert (Hn : NI st) by ni; revert Hn; generalize st; intros x Hn
+  | |- postx _ _ (_ ?st) =>
+      let Hn := fresh "Hn" in assert (Hn : NI st) by ni; revert Hn; generalize st; intros x Hn
   end.
 
 (* ------------------------------------------------------------------ fault declaration *)
+(* with the handler ABANDON the call is unwound: E_ABANDONED is raised in the reset (idle, fresh) state;
+   every other outcome leaves the handler state as it was *)
 Lemma declare_fault_spec : forall c s,
-  post (fun fh s' => (d_state s' = d_state s /\ p_tid (d_p s) <> None) \/ (fh = FH_ABANDON /\ Idle s'))
-       (fun s' => s' = s) (declare_fault c s).
+  postx (fun fh s' => d_state s' = d_state s /\ p_tid (d_p s) <> None /\ fh <> FH_ABANDON)
+        (fun e s' => (e = E_ABANDONED /\ Idle s') \/ (e <> E_ABANDONED /\ s' = s)) (declare_fault c s).
 Proof.
   intros c s. unfold declare_fault. mrun.
-  destruct (p_tid (d_p s)) as [[a b]|] eqn:Ht; [|reflexivity].
-  destruct (get_fault_handler (l_faults (d_cfg s)) c) as [fh|]; [|reflexivity].
+  destruct (p_tid (d_p s)) as [[a b]|] eqn:Ht; [|right; split; [compute; discriminate | reflexivity]].
+  destruct (get_fault_handler (l_faults (d_cfg s)) c) as [fh|]; [|right; split; [compute; discriminate | reflexivity]].
   destruct (fh =? FH_CANCEL) eqn:E1.
-  - unfold notice_of_cancellation. mrun. mfin. left. split; [reflexivity | discriminate].
+  - unfold notice_of_cancellation. mrun. destruct (fh =? FH_ABANDON) eqn:E2.
+    + apply Z.eqb_eq in E1, E2. rewrite E1 in E2. compute in E2. discriminate E2.
+    + mfin. apply Z.eqb_neq in E2. split; [reflexivity | split; [discriminate | exact E2]].
   - destruct (fh =? FH_ABANDON) eqn:E2.
-    + mrun. mfin. right. apply Z.eqb_eq in E2. split; [exact E2|]. repeat split; reflexivity.
-    + mrun. mfin. left. split; [reflexivity | discriminate].
+    + mrun. mfin. left. split; [reflexivity|]. repeat split; reflexivity.
+    + mrun. mfin. apply Z.eqb_neq in E2. split; [reflexivity | split; [discriminate | exact E2]].
 Qed.
 
-(* from a state satisfying J: either nothing happened to the handler state (and it was not idle), or it was abandoned *)
+(* from a state satisfying J0: either nothing happened to the handler state (and it was not idle), or it was abandoned *)
 Lemma declare_fault_J : forall c s, J0 s ->
-  post (fun fh s' => (NI s' /\ NI s) \/ (fh = FH_ABANDON /\ Idle s')) (fun s' => s' = s) (declare_fault c s).
+  postx (fun fh s' => NI s' /\ NI s)
+        (fun e s' => (e = E_ABANDONED /\ Idle s') \/ (e <> E_ABANDONED /\ s' = s)) (declare_fault c s).
 Proof.
-  intros c s HJ. eapply post_weaken; [apply declare_fault_spec | | auto].
-  intros fh s' [[H1 H2]|H]; [left | right; exact H].
+  intros c s HJ. pose proof (declare_fault_spec c s) as X. unfold postx in *.
+  destruct (declare_fault c s) as [s' [fh|e]]; [|exact X].
+  destruct X as [H1 [H2 _]].
   assert (NI s) as Hn.
   { apply J0_NI; [exact HJ|]. intro X. rewrite X in H2. apply H2. reflexivity. }
   split; [|exact Hn]. unfold NI in *. rewrite H1. exact Hn.
 Qed.
 
-Lemma declare_fault_safe : forall c s, J s -> post (fun _ => J) J0 (declare_fault c s).
+(* the same without the exception code *)
+Lemma declare_fault_Jp : forall c s, J0 s ->
+  post (fun fh s' => NI s' /\ NI s) (fun s' => Idle s' \/ s' = s) (declare_fault c s).
 Proof.
-  intros c s HJ. eapply post_weaken; [apply (declare_fault_J c s); auto with iso | | ].
-  - intros fh s' [[H _]|[_ H]]; auto with iso.
-  - intros s' ->. auto with iso.
+  intros c s HJ. eapply postx_post; [apply (declare_fault_J c s HJ) | auto |].
+  intros e s' [[_ H]|[_ H]]; [left | right]; exact H.
+Qed.
+
+Lemma declare_fault_safe : forall c s, J s -> post (fun _ => J) J (declare_fault c s).
+Proof.
+  intros c s HJ. eapply post_weaken; [apply (declare_fault_Jp c s); auto with iso | | ].
+  - intros fh s' [H _]. auto with iso.
+  - intros s' [H| ->]; auto with iso.
 Qed.
 
 (* ------------------------------------------------------------------ functions that may abandon *)
 Lemma checksum_verify_spec : forall s, NI s ->
-  post (fun ok s' => NI s' \/ (ok = false /\ Idle s')) NI (checksum_verify s).
+  post (fun ok s' => NI s') (fun s' => NI s' \/ Idle s') (checksum_verify s).
 Proof.
   intros s H. unfold checksum_verify. mrun.
   destruct ((p_cktype (d_p s) =? CK_NULL) || p_md_only (d_p s)).
-  - mrun. mfin. left. ni.
+  - mrun. mfin. ni.
   - mrun. fstep. destruct (bytes_eqb a (p_crc32 (d_p s))).
-    + mrun. mfin. left. ni.
-    + mrun. eapply post_bind; [apply declare_fault_J; auto with iso | intros s2 ->; ni |].
-      intros fh s2 [[Hn _]|[_ Hi]]; mrun; mfin; [left; ni | right; split; [reflexivity | exact Hi]].
+    + mrun. mfin. ni.
+    + mrun. eapply post_bind; [apply declare_fault_Jp; auto with iso | intros s2 [Hi| ->]; [right; exact Hi | left; ni] |].
+      intros fh s2 [Hn _]; mrun; mfin; ni.
 Qed.
 
-Lemma filestore_rejection_spec : forall s, NI s -> post (fun _ => J) NI (filestore_rejection s).
+Lemma filestore_rejection_spec : forall s, NI s -> post (fun _ => J) (fun s' => NI s' \/ Idle s') (filestore_rejection s).
 Proof.
   intros s H. unfold filestore_rejection. mrun.
   destruct (negb (f_fstatus (p_fin (d_p s)) =? FS_RETAINED)); mrun.
-  - eapply post_bind; [apply declare_fault_J; apply NI_J0; ni | intros s' ->; ni |].
-    intros fh s2 [[Hn _]|[_ Hi]]; mfin; auto with iso.
+  - eapply post_bind; [apply declare_fault_Jp; apply NI_J0; ni | intros s' [Hi| ->]; [right; exact Hi | left; ni] |].
+    intros fh s2 [Hn _]; mfin; auto with iso.
   - mfin. auto with iso.
 Qed.
 
-Lemma handle_fd_pdu_spec : forall o d s, NI s -> post (fun _ => J) J0 (handle_fd_pdu o d s).
+Lemma handle_fd_pdu_spec : forall o d s, NI s -> post (fun _ => J) J (handle_fd_pdu o d s).
 Proof.
   intros o d s H. unfold handle_fd_pdu. mrun. fstep.
-  apply post_catch with (E1 := NI).
+  apply postx_catch with (E1 := fun e s' => NI s' \/ (e = E_ABANDONED /\ Idle s')).
   - fstep. fstep. mrun. fstep. mrun. nigen s3.
     destruct (p_file_size_eof (d_p s3)) as [sz|]; [destruct (sz <? o + zlen d)|]; mrun.
-    + eapply post_bind; [apply declare_fault_J; jdone | intros s2 ->; ni |].
-      intros fh s2 [[Hn2 _]|[Hf Hi]]; mrun.
-      * destruct (negb (fh =? FH_IGNORE)); mfin; jdone.
-      * subst fh. change (FH_ABANDON =? FH_IGNORE) with false. cbn [negb]. mfin. jdone.
+    + eapply postx_bind; [apply declare_fault_J; jdone | |].
+      * intros e s2 [[He Hi]|[_ ->]]; [right; split; assumption | left; ni].
+      * intros fh s2 [Hn2 _]; mrun. destruct (negb (fh =? FH_IGNORE)); mfin; jdone.
     + mfin. jdone.
     + mfin. jdone.
-  - intros e k s1 Hh Hn. destruct ((e =? E_FILE_NOT_FOUND) || (e =? E_PERMISSION)); [|discriminate Hh].
-    inversion Hh; subst k. eapply post_weaken; [apply filestore_rejection_spec; ni | intros; jdone | intros; jdone].
-  - intros; jdone.
+  - (* the filestore handler never sees the abandon exception *)
+    intros e k s1 Hh HE. destruct ((e =? E_FILE_NOT_FOUND) || (e =? E_PERMISSION)) eqn:Ee; [|discriminate Hh].
+    inversion Hh; subst k.
+    assert (NI s1) as Hn.
+    { destruct HE as [Hn|[He _]]; [exact Hn|]. subst e. vm_compute in Ee. discriminate Ee. }
+    eapply post_weaken; [apply filestore_rejection_spec; ni | intros; jdone | jx].
+  - intros e s2 _ [Hn|[_ Hi]]; jdone.
 Qed.
 
-Lemma ftct_safe : forall s, J s -> post (fun _ => J) J0 (file_transfer_complete_transition s).
+Lemma ftct_safe : forall s, J s -> post (fun _ => J) J (file_transfer_complete_transition s).
 Proof.
   intros s HJ. destruct (NI_or_idle s) as [Hn|Hi]; [flast|].
   unfold file_transfer_complete_transition. mrun. rewrite Hi. change (ST_IDLE =? ST_IDLE) with true.
@@ -289,55 +349,46 @@ Proof.
   intros s [H1 [H2 H3]]. unfold J. cbn. intros _. rewrite H2. split; [reflexivity | right; reflexivity].
 Qed.
 
-Lemma deferred_safe : forall s, J s -> post (fun _ => J) J0 (deferred_lost_segment_handling s).
+Lemma deferred_safe : forall s, J s -> post (fun _ => J) J (deferred_lost_segment_handling s).
 Proof.
   intros s HJ. unfold deferred_lost_segment_handling. mrun.
   destruct (p_deferred (d_p s)) eqn:Hd; cbn [negb]; [|mfin; exact HJ].
   assert (NI s) as Hn by (apply J0_NI; [jdone | intro X; rewrite X in Hd; discriminate Hd]).
   fstep. mrun. destruct (p_file_size_eof (d_p s')) as [eos|]; [|mfin; jdone].
   mrun. destruct ((zlen (p_tracker (d_p s')) =? 0) && negb (p_md_missing (d_p s'))).
-  - eapply post_bind; [apply checksum_verify_spec; ni | intros; jdone |].
-    intros ok s2 [Hn2|[_ Hi]]; mrun; mfin; [jdone | apply J_tc_deferred; exact Hi].
+  - eapply post_bind; [apply checksum_verify_spec; ni | jx |].
+    intros ok s2 Hn2; mrun; mfin; jdone.
   - fstep. fstep. fstep. destruct a2 as [first|]; [|mfin; jdone]. mrun.
     destruct (negb first && (p_nak_counter (d_p s'2) + 1 =? r_nak_limit a)).
     + eapply post_bind; [apply declare_fault_safe; jdone | intros; assumption | intros; mfin; assumption].
     + flast.
 Qed.
 
-Lemma start_deferred_spec : forall s, NI s -> post (fun _ => J) J0 (start_deferred_lost_segment_handling s).
+Lemma start_deferred_spec : forall s, NI s -> post (fun _ => J) J (start_deferred_lost_segment_handling s).
 Proof.
   intros s H. unfold start_deferred_lost_segment_handling. mrun. apply deferred_safe. jdone.
 Qed.
 
-Lemma handle_no_error_eof_spec : forall s, NI s -> post (fun _ => J) J0 (handle_no_error_eof s).
+Lemma handle_no_error_eof_spec : forall s, NI s -> post (fun _ => J) J (handle_no_error_eof s).
 Proof.
   intros s H. unfold handle_no_error_eof, tracker_add. mrun.
-  eapply post_bind with (Q1 := fun early s' => NI s' \/ (early = true /\ Idle s')) (E1 := NI).
+  eapply post_bind with (Q1 := fun early s' => NI s') (E1 := fun s' => NI s' \/ Idle s').
   - destruct (opt_z (p_file_size_eof (d_p s)) <? p_progress (d_p s)); [|destruct (_ && _)]; mrun.
-    + eapply post_bind; [apply declare_fault_J; jdone | intros s2 ->; ni |].
-      intros fh s2 [[Hn _]|[Hf Hi]]; mfin; [left; ni | right; subst fh; split; [reflexivity | exact Hi]].
-    + mfin. left. ni.
-    + mfin. left. ni.
-  - intros; jdone.
-  - intros early s1 [Hn|[He Hi]].
-    + destruct early; [mfin; jdone|].
-      destruct (if d_state s =? ST_IDLE then false else h_mode (p_conf (d_p s)) =? UNACKED); [|mfin; jdone].
-      eapply post_bind; [apply checksum_verify_spec; ni | intros; jdone |].
-      intros ok s2 [Hn2|[Ho Hi]].
-      * destruct ok; [mfin; jdone|].
-        eapply post_bind; [apply declare_fault_J; jdone | intros ? ->; jdone |].
-        intros fh s3 [[Hn3 _]|[Hf Hi]].
-        -- destruct (negb (fh =? FH_IGNORE)); [mfin; jdone | flast].
-        -- subst fh. change (negb (FH_ABANDON =? FH_IGNORE)) with true. mfin. jdone.
-      * subst ok.
-        eapply post_bind; [apply declare_fault_J; jdone | intros ? ->; jdone |].
-        intros fh s3 [[Hn3 Hn2]|[Hf Hi3]].
-        -- exfalso. destruct Hi as [Hi _]. unfold NI in Hn2. rewrite Hi in Hn2. discriminate Hn2.
-        -- subst fh. change (negb (FH_ABANDON =? FH_IGNORE)) with true. mfin. jdone.
-    + subst early. mfin. jdone.
+    + eapply post_bind; [apply declare_fault_Jp; jdone | intros s2 [Hi| ->]; [right; exact Hi | left; ni] |].
+      intros fh s2 [Hn _]; mfin; ni.
+    + mfin. ni.
+    + mfin. ni.
+  - jx.
+  - intros early s1 Hn.
+    destruct early; [mfin; jdone|].
+    destruct (if d_state s =? ST_IDLE then false else h_mode (p_conf (d_p s)) =? UNACKED); [|mfin; jdone].
+    eapply post_bind; [apply checksum_verify_spec; ni | jx |].
+    intros ok s2 Hn2. destruct ok; [mfin; jdone|]. mrun.
+    destruct (get_fault_handler (l_faults (d_cfg s2)) C_CHECKSUM_FAILURE) as [fh|]; [|mfin; jdone].
+    destruct (fh =? FH_IGNORE); [flast | mfin; jdone].
 Qed.
 
-Lemma handle_eof_pdu_spec : forall c ck sz s, NI s -> post (fun _ => J) J0 (handle_eof_pdu c ck sz s).
+Lemma handle_eof_pdu_spec : forall c ck sz s, NI s -> post (fun _ => J) J (handle_eof_pdu c ck sz s).
 Proof.
   intros c ck sz s H. unfold handle_eof_pdu. mrun. nigen s1. fstep.
   destruct (c =? C_NO_ERROR).
@@ -346,7 +397,7 @@ Proof.
   - flast.
 Qed.
 
-Lemma init_vfs_handling_spec : forall b s, NI s -> post (fun _ => J) J0 (init_vfs_handling b s).
+Lemma init_vfs_handling_spec : forall b s, NI s -> post (fun _ => J) J (init_vfs_handling b s).
 Proof.
   intros b s H. unfold init_vfs_handling. apply post_catch with (E1 := NI).
   - flast.
@@ -357,7 +408,7 @@ Proof.
 Qed.
 
 Lemma handle_metadata_packet_spec : forall h cl ck sz names msgs s, NI s ->
-  post (fun _ => J) J0 (handle_metadata_packet h cl ck sz names msgs s).
+  post (fun _ => J) J (handle_metadata_packet h cl ck sz names msgs s).
 Proof.
   intros h cl ck sz names msgs s H. unfold handle_metadata_packet. mrun. nigen s1. fstep. mrun. nigen s2.
   destruct (p_rcfg (d_p s2)); [|mfin; jdone]. mrun.
@@ -368,7 +419,7 @@ Proof.
   - nigen s3. flast.
 Qed.
 
-Lemma fsm_advancement_spec : forall s, NI s -> post (fun _ => J) J0 (fsm_advancement s).
+Lemma fsm_advancement_spec : forall s, NI s -> post (fun _ => J) J (fsm_advancement s).
 Proof.
   intros s H. unfold fsm_advancement. mrun.
   destruct (0 <? zlen (d_queue s)); [mfin; jdone|].
@@ -376,30 +427,27 @@ Proof.
   destruct (negb (p_disp (d_p s) =? DISP_CANCELED) && _).
   - apply start_deferred_spec. exact H.
   - destruct (negb (p_disp (d_p s) =? DISP_CANCELED)); mrun.
-    + eapply post_bind; [apply checksum_verify_spec; ni | intros; jdone |].
-      intros ok s2 [Hn2|[_ Hi]]; mrun; mfin; [jdone|].
-      destruct Hi as [H1 [H2 H3]]. unfold J. cbn. intros _. split; [exact H2 | right; reflexivity].
+    + eapply post_bind; [apply checksum_verify_spec; ni | jx |].
+      intros ok s2 Hn2; mrun; mfin; jdone.
     + mfin. jdone.
 Qed.
 
-Lemma check_limit_handling_spec : forall s, NI s -> post (fun _ => J) J0 (check_limit_handling s).
+Lemma check_limit_handling_spec : forall s, NI s -> post (fun _ => J) J (check_limit_handling s).
 Proof.
   intros s H. unfold check_limit_handling. mrun.
   destruct (p_check_timer (d_p s)) as [tm|]; [|mfin; jdone].
   fstep. mrun. destruct (timed_out (e_now (d_env s')) tm); [|mfin; jdone].
-  eapply post_bind; [apply checksum_verify_spec; ni | intros; jdone |].
-  intros ok s2 Hok.
-  assert (J s2) as HJ by (destruct Hok as [Hn|[_ Hi]]; jdone).
-  destruct ok; [apply ftct_safe; exact HJ|]. mrun.
+  eapply post_bind; [apply checksum_verify_spec; ni | jx |].
+  intros ok s2 Hn2.
+  destruct ok; [apply ftct_safe; jdone|]. mrun.
   destruct (p_rcfg (d_p s2)) as [r'|] eqn:Hr; [|mfin; jdone].
-  assert (NI s2) as Hn2 by (apply J0_NI; [jdone | intro X; rewrite X in Hr; discriminate Hr]).
   destruct (r_check_limit r' <=? p_check_count (d_p s2) + 1).
   - eapply post_bind; [apply declare_fault_safe; jdone | intros; assumption | intros; mfin; assumption].
   - flast.
 Qed.
 
 Lemma handle_waiting_for_missing_metadata_spec : forall pkt s, NI s ->
-  post (fun _ => J) J0 (handle_waiting_for_missing_metadata pkt s).
+  post (fun _ => J) J (handle_waiting_for_missing_metadata pkt s).
 Proof.
   intros pkt s H. unfold handle_waiting_for_missing_metadata.
   destruct pkt as [[ | | | | | | | ]|]; try flast.
@@ -416,39 +464,39 @@ Ltac jreset := first [ apply J_reset | unfold J; cbn; intros _; split; [reflexiv
 
 Lemma noc_idle : forall s, d_state s = ST_IDLE -> d_p s = fresh_params ->
   post (fun _ s' => d_state s' = ST_IDLE /\ d_p s' = fresh_params /\ d_step s' = d_step s)
-       (fun s' => d_state s' = ST_IDLE /\ d_p s' = fresh_params) (notice_of_completion s).
+       (fun s' => d_state s' = ST_IDLE /\ d_p s' = fresh_params /\ d_step s' = d_step s) (notice_of_completion s).
 Proof.
   intros s Hi Hp. unfold notice_of_completion. mrun. rewrite Hp.
   change (p_disp fresh_params =? DISP_CANCELED) with false. mrun.
   destruct (l_ind_fin (d_cfg s)); [|mfin; auto]. mrun. rewrite Hp. cbn. mfin. auto.
 Qed.
 
-Lemma handle_transfer_completion_safe : forall s, J s -> post (fun _ => J) J0 (handle_transfer_completion s).
+Lemma handle_transfer_completion_safe : forall s, J s -> post (fun _ => J) J (handle_transfer_completion s).
 Proof.
   intros s HJ. unfold handle_transfer_completion.
   destruct (NI_or_idle s) as [Hn|Hi].
   - fstep. mrun. destruct (_ || _); mfin; [jdone | apply J_reset].
   - destruct (HJ Hi) as [Hp Hs].
     eapply post_bind; [apply noc_idle; assumption | |].
-    + intros s1 [H1 H2] _. exact H2.
+    + intros s1 [H1 [H2 H3]] _. split; [exact H2 | rewrite H3; exact Hs].
     + intros u s1 [H1 [H2 H3]]. mrun. rewrite H1. change (ST_IDLE =? ST_IDLE) with true. cbn [andb orb].
       mfin. apply J_reset.
 Qed.
 
-Lemma handle_finished_pdu_sent_spec : forall s, NI s -> post (fun _ => J) J0 (handle_finished_pdu_sent s).
+Lemma handle_finished_pdu_sent_spec : forall s, NI s -> post (fun _ => J) J (handle_finished_pdu_sent s).
 Proof.
   intros s H. unfold handle_finished_pdu_sent. mrun.
   destruct ((d_state s =? ST_BUSY) && _); [flast | mfin; apply J_reset].
 Qed.
 
 Lemma handle_positive_ack_procedures_spec : forall again s,
-  (forall s0, NI s0 -> post (fun _ => J) J0 (again s0)) -> NI s ->
-  post (fun _ => J) J0 (handle_positive_ack_procedures again s).
+  (forall s0, NI s0 -> post (fun _ => J) J (again s0)) -> NI s ->
+  post (fun _ => J) J (handle_positive_ack_procedures again s).
 Proof.
   intros again s Hag H. unfold handle_positive_ack_procedures. mrun.
   destruct (p_ack_timer (d_p s)) as [tm|]; [|mfin; jdone].
   fstep. mrun. destruct (negb (timed_out (e_now (d_env s')) tm)); [mfin; jdone|].
-  mrun. eapply post_bind with (Q1 := fun _ s1 => J s1) (E1 := J0).
+  mrun. eapply post_bind with (Q1 := fun _ s1 => J s1) (E1 := J).
   - destruct (r_ack_limit a <=? p_ack_counter (d_p s') + 1); [|mfin; jdone]. mrun.
     destruct (p_disp (d_p s') =? DISP_CANCELED).
     + mrun. destruct (p_tid (d_p s')) as [[a1 b1]|]; [|mfin; jdone]. mrun. mfin. jreset.
@@ -464,8 +512,8 @@ Proof.
 Qed.
 
 Lemma handle_waiting_for_finished_ack_spec : forall again pkt s,
-  (forall s0, NI s0 -> post (fun _ => J) J0 (again s0)) -> NI s ->
-  post (fun _ => J) J0 (handle_waiting_for_finished_ack again pkt s).
+  (forall s0, NI s0 -> post (fun _ => J) J (again s0)) -> NI s ->
+  post (fun _ => J) J (handle_waiting_for_finished_ack again pkt s).
 Proof.
   intros again pkt s Hag H. unfold handle_waiting_for_finished_ack.
   destruct pkt as [[ | | | | | | | ]|]; try (apply handle_positive_ack_procedures_spec; assumption).
@@ -482,8 +530,8 @@ Qed.
 
 Lemma stage {B} V (m : D unit) (rest : D B) (Q : B -> dst -> Prop) s :
   J s -> V <> DS_IDLE -> V <> DS_TRANSFER_COMPLETION ->
-  (forall s0, NI s0 -> post (fun _ => J) J0 (m s0)) -> (forall s', J s' -> post Q J0 (rest s')) ->
-  post Q J0 (bind (step_is V) (fun b => bind (when b m) (fun _ => rest)) s).
+  (forall s0, NI s0 -> post (fun _ => J) J (m s0)) -> (forall s', J s' -> post Q J (rest s')) ->
+  post Q J (bind (step_is V) (fun b => bind (when b m) (fun _ => rest)) s).
 Proof.
   intros HJ H1 H2 Hm Hr. rewrite b_step_is. destruct (d_step s =? V) eqn:E.
   - rewrite when_true. eapply post_bind; [apply Hm; eapply J_step_NI; eauto | intros; assumption |].
@@ -493,8 +541,8 @@ Qed.
 
 Lemma stage_last V (m : D unit) s :
   J s -> V <> DS_IDLE -> V <> DS_TRANSFER_COMPLETION ->
-  (forall s0, NI s0 -> post (fun _ => J) J0 (m s0)) ->
-  post (fun _ => J) J0 (bind (step_is V) (fun b => when b m) s).
+  (forall s0, NI s0 -> post (fun _ => J) J (m s0)) ->
+  post (fun _ => J) J (bind (step_is V) (fun b => when b m) s).
 Proof.
   intros HJ H1 H2 Hm. rewrite b_step_is. destruct (d_step s =? V) eqn:E.
   - rewrite when_true. apply Hm. eapply J_step_NI; eauto.
@@ -535,13 +583,13 @@ Definition nif_body (again : D unit) (pkt : option pdu) : D unit :=
   when b (handle_waiting_for_finished_ack again pkt).
 
 Lemma nif_body_spec : forall again pkt s,
-  (forall s0, NI s0 -> post (fun _ => J) J0 (again s0)) -> NI s ->
-  post (fun _ => J) J0 (nif_body again pkt s).
+  (forall s0, NI s0 -> post (fun _ => J) J (again s0)) -> NI s ->
+  post (fun _ => J) J (nif_body again pkt s).
 Proof.
   intros again pkt s Hag H. unfold nif_body.
   eapply post_bind; [apply fsm_advancement_spec; exact H | intros; assumption |].
   intros u s1 HJ1. mrun.
-  eapply post_bind with (Q1 := fun _ s2 => J s2) (E1 := J0).
+  eapply post_bind with (Q1 := fun _ s2 => J s2) (E1 := J).
   { destruct ((d_step s1 =? DS_RECEIVING_FILE_DATA) || (d_step s1 =? DS_RECV_WITH_CHECK_LIMIT)) eqn:E;
       [rewrite when_true | rewrite when_false; mfin; exact HJ1].
     assert (NI s1) as Hn1.
@@ -559,7 +607,7 @@ Proof.
   intros s4 HJ4.
   apply stage; [exact HJ4 | discriminate | discriminate | |].
   { intros s0 Hn0. fstep.
-    eapply post_bind with (Q1 := fun _ s5 => J s5) (E1 := J0).
+    eapply post_bind with (Q1 := fun _ s5 => J s5) (E1 := J).
     - destruct pkt as [[ | | | | | | | ]|]; try (mfin; jdone).
       eapply post_bind; [apply handle_fd_pdu_spec; ni | intros; assumption |].
       intros u5 s5 HJ5. mrun. destruct (p_deferred (d_p s5)) eqn:Hd; [|mfin; exact HJ5].
@@ -569,7 +617,7 @@ Proof.
     - intros u5 s5 HJ5. apply deferred_safe. exact HJ5. }
   intros s5 HJ5.
   rewrite b_step_is.
-  eapply post_bind with (Q1 := fun _ s6 => J s6) (E1 := J0).
+  eapply post_bind with (Q1 := fun _ s6 => J s6) (E1 := J).
   { destruct (d_step s5 =? DS_TRANSFER_COMPLETION); [rewrite when_true | rewrite when_false; mfin; exact HJ5].
     apply handle_transfer_completion_safe. exact HJ5. }
   { intros; assumption. }
@@ -582,15 +630,19 @@ Proof.
   intros s0 Hn0. apply handle_waiting_for_finished_ack_spec; assumption.
 Qed.
 
-Lemma non_idle_fsm_spec : forall fuel pkt s, NI s -> post (fun _ => J) J0 (non_idle_fsm fuel pkt s).
+Lemma non_idle_fsm_spec : forall fuel pkt s, NI s -> post (fun _ => J) J (non_idle_fsm fuel pkt s).
 Proof.
   induction fuel as [|k IH]; intros pkt s H.
   - change (non_idle_fsm 0 pkt) with (nif_body (raise E_FUEL) pkt).
     apply nif_body_spec; [|exact H]. intros s0 Hn0. mfin. jdone.
   - change (non_idle_fsm (S k) pkt)
-      with (nif_body (s0 <- get ;; when (d_state s0 =? ST_BUSY) (non_idle_fsm k None)) pkt).
-    apply nif_body_spec; [|exact H]. intros s0 Hn0. mrun.
-    destruct (d_state s0 =? ST_BUSY); [rewrite when_true; apply IH; exact Hn0 | rewrite when_false; mfin; jdone].
+      with (nif_body (catch_abandoned (s0 <- get ;; when (d_state s0 =? ST_BUSY) (non_idle_fsm k None))) pkt).
+    apply nif_body_spec; [|exact H]. intros s0 Hn0. unfold catch_abandoned.
+    apply post_catch with (E1 := J).
+    + mrun. destruct (d_state s0 =? ST_BUSY); [rewrite when_true; apply IH; exact Hn0 | rewrite when_false; mfin; jdone].
+    + (* the nested call swallows the abandon exception; the state it ends in is J *)
+      intros e k0 s1 Hh HJ1. destruct (e =? E_ABANDONED); [|discriminate Hh]. inversion Hh; subst k0. mfin. exact HJ1.
+    + intros; assumption.
 Qed.
 
 (* ------------------------------------------------------------------ public API of the destination handler *)
@@ -605,7 +657,7 @@ Proof.
     cbn [negb]. mrun. flast.
   - unfold start_transaction. mrun. rewrite Hi. cbn [negb].
     unfold common_first_packet_handler. mrun. cbn. rewrite Hi. cbn [negb]. mrun.
-    eapply post_weaken; [apply handle_metadata_packet_spec; ni | intros; jdone | intros; assumption].
+    eapply post_weaken; [apply handle_metadata_packet_spec; ni | intros; jdone | intros; jdone].
   - unfold common_first_packet_not_metadata, common_first_packet_handler. mrun. cbn. rewrite Hi.
     cbn [negb]. mrun. flast.
 Qed.
@@ -615,16 +667,20 @@ Proof.
   intros pkt s HJ. unfold Dest.state_machine.
   eapply post_bind with (Q1 := fun _ s1 => s1 = s) (E1 := fun s1 => s1 = s).
   - destruct pkt as [p|]; [|mfin; reflexivity].
-    pose proof (minv_state _ _ _ s (adm_d p)) as X. unfold whole in X. unfold post.
+    pose proof (minv_state _ _ _ s (adm_d p)) as X. unfold whole in X. unfold post, postx.
     destruct (check_inserted_packet p s) as [s1 [a|e]]; exact X.
   - intros s1 ->. exact HJ.
-  - intros u s1 ->. mrun. destruct (d_state s =? ST_IDLE) eqn:Ei.
-    + mrun. eapply post_bind; [apply idle_fsm_spec; assumption | intros; assumption |].
-      intros u1 s1 HJ1. mrun. destruct (0 <? d_ready s1); [mfin; exact HJ1|]. mrun.
-      destruct (d_state s1 =? ST_BUSY) eqn:Eb; [rewrite when_true | rewrite when_false; mfin; exact HJ1].
-      eapply post_weaken; [apply non_idle_fsm_spec; apply busy_NI; exact Eb | intros; jdone | intros; assumption].
-    + mrun. destruct (d_state s =? ST_BUSY) eqn:Eb; [rewrite when_true | rewrite when_false; mfin; exact HJ].
-      eapply post_weaken; [apply non_idle_fsm_spec; exact Ei | intros; jdone | intros; assumption].
+  - intros u s1 ->. unfold catch_abandoned. apply post_catch with (E1 := J0).
+    + mrun. destruct (d_state s =? ST_IDLE) eqn:Ei.
+      * mrun. eapply post_bind; [apply idle_fsm_spec; assumption | intros; assumption |].
+        intros u1 s1 HJ1. mrun. destruct (0 <? d_ready s1); [mfin; exact HJ1|]. mrun.
+        destruct (d_state s1 =? ST_BUSY) eqn:Eb; [rewrite when_true | rewrite when_false; mfin; exact HJ1].
+        eapply post_weaken; [apply non_idle_fsm_spec; apply busy_NI; exact Eb | intros; jdone | intros; jdone].
+      * mrun. destruct (d_state s =? ST_BUSY) eqn:Eb; [rewrite when_true | rewrite when_false; mfin; exact HJ].
+        eapply post_weaken; [apply non_idle_fsm_spec; exact Ei | intros; jdone | intros; jdone].
+    + (* try ... except _TransactionAbandoned: pass *)
+      intros e k s1 Hh HJ1. destruct (e =? E_ABANDONED); [|discriminate Hh]. inversion Hh; subst k. mfin. exact HJ1.
+    + intros; assumption.
 Qed.
 
 Lemma get_next_packet_spec : forall s, J0 s -> J0 (fst (Dest.get_next_packet s)).
@@ -736,7 +792,7 @@ Ltac srun :=
     | rewrite b_modify | rewrite b_put | rewrite when_true | rewrite when_false ];
   cbv beta.
 Ltac sfin :=
-  unfold setq, sset_step, semit, sreset_internal, sadd_packet, gq, snow, modify, gets, get, put, ret, raise, post;
+  unfold setq, sset_step, semit, sreset_internal, sadd_packet, gq, snow, modify, gets, get, put, ret, raise, post, postx;
   cbn.
 Ltac nis := first [ assumption | unfold NIs in *; cbn; first [assumption | reflexivity] ].
 Ltac kdone :=
@@ -748,14 +804,14 @@ Notation SF m := (MInv s_state Any m).
 Lemma sframe_bind {A B} (m : SM A) (k : A -> SM B) s (Q : B -> src -> Prop) (E : src -> Prop) :
   SF m -> NIs s -> (forall s', NIs s' -> E s') -> (forall a s', NIs s' -> post Q E (k a s')) -> post Q E (bind m k s).
 Proof.
-  intros Hm Hs HE Hk. pose proof (minv_state _ _ _ s Hm) as X. unfold bind, post.
+  intros Hm Hs HE Hk. pose proof (minv_state _ _ _ s Hm) as X. unfold bind, post, postx.
   destruct (m s) as [s1 [a|e]]; cbn [fst] in X.
   - apply Hk. unfold NIs in *. rewrite X. exact Hs.
   - apply HE. unfold NIs in *. rewrite X. exact Hs.
 Qed.
 Lemma sframe_last {A} (m : SM A) s : SF m -> NIs s -> post (fun _ => NIs) NIs (m s).
 Proof.
-  intros Hm Hs. pose proof (minv_state _ _ _ s Hm) as X. unfold post.
+  intros Hm Hs. pose proof (minv_state _ _ _ s Hm) as X. unfold post, postx.
   destruct (m s) as [s1 [a|e]]; cbn [fst] in X; unfold NIs in *; rewrite X; exact Hs.
 Qed.
 
@@ -904,7 +960,7 @@ Proof.
   intros pkt s H. apply post_fst. unfold state_machine_s.
   eapply post_bind with (Q1 := fun _ s1 => s1 = s) (E1 := fun s1 => s1 = s).
   - destruct pkt as [p|]; [|sfin; reflexivity].
-    pose proof (minv_state _ _ _ s (adm_s p)) as X. unfold whole in X. unfold post.
+    pose proof (minv_state _ _ _ s (adm_s p)) as X. unfold whole in X. unfold post, postx.
     destruct (check_inserted_packet_s p s) as [s1 [a|e]]; exact X.
   - intros s1 ->. exact H.
   - intros u s1 ->. srun. destruct (s_state s =? ST_IDLE) eqn:Ei; [sfin; exact H|].
